@@ -229,7 +229,10 @@ func (r *grammarOptimizer) optimizeRules(exprs []Expression) []Expression {
 func (r *grammarOptimizer) optimizeRule(expr Expression) Expression {
 	// Optimize RuleRefExpr
 	if ruleRef, ok := expr.(*RuleRefExpr); ok {
-		if _, ok := r.ruleUsesRules[ruleRef.Name.Val]; !ok {
+		_, usesRules := r.ruleUsesRules[ruleRef.Name.Val]
+		// Only inline references to rules that exist; a reference to an
+		// undefined rule is left as is and reported by the generated parser.
+		if rule, defined := r.rules[ruleRef.Name.Val]; defined && !usesRules {
 			r.optimized = true
 			delete(r.ruleUsedByRules[ruleRef.Name.Val], r.rule)
 			if len(r.ruleUsedByRules[ruleRef.Name.Val]) == 0 {
@@ -239,8 +242,7 @@ func (r *grammarOptimizer) optimizeRule(expr Expression) Expression {
 			if len(r.ruleUsesRules[r.rule]) == 0 {
 				delete(r.ruleUsesRules, r.rule)
 			}
-			// TODO: Check if reference exists, otherwise raise an error, which reference is missing!
-			return cloneExpr(r.rules[ruleRef.Name.Val].Expr)
+			return cloneExpr(rule.Expr)
 		}
 	}
 
